@@ -106,6 +106,8 @@ fn selection(ctx: &mut Ctx, tape: &[u8]) -> CaseResult {
     // a fifth of the cases: reference scripts have a price and some offered UTxOs carry one (selecting such a UTxO
     // raises the minimum fee by more than its size). Drawn last, and 0 means no, so that earlier tapes keep their meaning
     let ref_scripts = t.byte() >= 206;
+    // pure-ADA strategies: the outputs ask for lovelace only, but the UTxOs offered (and held) may well carry tokens
+    let tokens_on_utxos = !multi && t.byte() >= 128;
 
     let cfg = TransactionBuilderConfigBuilder::new()
         .fee_algo(&LinearFee::new(&bn(fee_a), &bn(fee_b)))
@@ -121,6 +123,10 @@ fn selection(ctx: &mut Ctx, tape: &[u8]) -> CaseResult {
 
     let mut c = Tape::new(rest);
     let asset_ids: Vec<(Vec<u8>, Vec<u8>)> = (0..n_asset_kinds).map(|i| (pool_bytes((i / 2) as u8, 28, 52), vec![i as u8])).collect();
+    let utxo_asset_ids: Vec<(Vec<u8>, Vec<u8>)> = if tokens_on_utxos { (0..2usize).map(|i| (pool_bytes(i as u8, 28, 52), vec![i as u8])).collect() } else { asset_ids.clone() };
+    if tokens_on_utxos {
+        ctx.label("pure-ada-strategy:utxos-may-carry-tokens");
+    }
     // outputs
     let mut out_specs: Vec<(u64, BTreeMap<(Vec<u8>, Vec<u8>), u64>)> = Vec::new();
     for _ in 0..n_out {
@@ -181,7 +187,7 @@ fn selection(ctx: &mut Ctx, tape: &[u8]) -> CaseResult {
             1 => marks[c.choose(marks.len())],
             _ => 500,
         };
-        let u = mk_utxo(&mut c, 1000 + i, coin, &asset_ids);
+        let u = mk_utxo(&mut c, 1000 + i, coin, &utxo_asset_ids);
         if catch(|| tb.add_regular_input(&u.addr, &u.input, &u.value)).map(|r| r.is_ok()).unwrap_or(false) {
             before_value.insert(u.input.to_bytes(), coin);
             utxos.insert(u.input.to_bytes(), u);
@@ -200,7 +206,7 @@ fn selection(ctx: &mut Ctx, tape: &[u8]) -> CaseResult {
             4 => marks[c.choose(marks.len())].max(300),
             _ => c.range_u64(300, scale).max(300),
         };
-        let mut u = mk_utxo(&mut c, i, coin, &asset_ids);
+        let mut u = mk_utxo(&mut c, i, coin, &utxo_asset_ids);
         if ref_scripts && c.chance(90) {
             let size = [30usize, 2_000, 20_000, 26_000][c.choose(4)];
             u.script_ref = Some(ScriptRef::new_plutus_script(&PlutusScript::new_v2(pool_bytes(3, size, 55))));
